@@ -44,7 +44,39 @@ def demo_result(wt, feat='--all-features'):
     return all(r[0] == 'ok' for r in res) and sum(int(r[1]) for r in res) > 0, out[-1500:]
 
 
+def reconfirm(names):
+    """re-run the three confirmations for changes already filed under /verif/seeded (after /repo moved on)"""
+    for name in names:
+        dest = os.path.join(VERIF, 'seeded', name)
+        wt = '/var/tmp/sv_%s' % name
+        subprocess.run('git -C /repo worktree remove --force %s' % wt, shell=True, capture_output=True)
+        shutil.rmtree(wt, ignore_errors=True)
+        subprocess.run('git -C /repo worktree add -q --detach %s HEAD' % wt, shell=True, capture_output=True, text=True)
+        try:
+            os.makedirs(os.path.join(wt, 'tests'), exist_ok=True)
+            shutil.copy(os.path.join(dest, 'demo.rs'), os.path.join(wt, 'tests', 'demo.rs'))
+            base_ok, _ = demo_result(wt)
+            os.remove(os.path.join(wt, 'tests', 'demo.rs'))
+            rc, out2 = sh('git apply %s' % os.path.join(dest, 'patch.diff'), wt)
+            s_ok, notes = suite_ok(wt)
+            shutil.copy(os.path.join(dest, 'demo.rs'), os.path.join(wt, 'tests', 'demo.rs'))
+            mut_ok, out3 = demo_result(wt)
+            verdict = rc == 0 and (base_ok is True) and s_ok and (mut_ok is False)
+            print(name, 'RECONFIRMED' if verdict else 'REJECTED', 'apply=%d base_demo=%s suite=%s mut_demo=%s' % (rc, base_ok, s_ok, mut_ok), flush=True)
+            m = json.load(open(os.path.join(dest, 'meta.json')))
+            m.setdefault('reconfirmed', []).append({'head': subprocess.run('git -C /repo rev-parse HEAD', shell=True, capture_output=True, text=True).stdout.strip(),
+                                                    'ok': verdict, 'base_demo': base_ok, 'suite': s_ok, 'mut_demo': mut_ok,
+                                                    'note': 'patch ported to the current tree (original kept as patch.orig.diff)' if os.path.exists(os.path.join(dest, 'patch.orig.diff')) else ''})
+            json.dump(m, open(os.path.join(dest, 'meta.json'), 'w'), indent=1)
+        finally:
+            subprocess.run('git -C /repo worktree remove --force %s' % wt, shell=True, capture_output=True)
+            shutil.rmtree(wt, ignore_errors=True)
+    shutil.rmtree(TARGET, ignore_errors=True)
+
+
 def main():
+    if len(sys.argv) > 1 and sys.argv[1] == '--reconfirm':
+        return reconfirm(sys.argv[2:])
     only = sys.argv[1:]
     for d in sorted(glob.glob('/tmp/seed_*/_out')):
         prop = d.split('/')[2].replace('seed_', '')
